@@ -19,6 +19,7 @@ func main() {
 	n := fs.Int("n", 10, "matrices / cases")
 	maxLen := fs.Int("len", 3, "maximal sequence length")
 	out := fs.String("out", "", "output ndjson")
+	in := fs.String("in", "", "calls to repeat (mode calls)")
 	fs.Parse(os.Args[2:])
 	w := vt.Create(*out)
 	rng := vt.Rand(*seed, "align"+os.Args[1])
@@ -27,6 +28,8 @@ func main() {
 		alignd.Bounded(w, rng, *n, *maxLen)
 	case "random":
 		alignd.Random(w, rng, *n, *maxLen)
+	case "calls":
+		alignd.Calls(w, *in)
 	case "ill":
 		alignd.IllTyped(w, rng)
 	default:
